@@ -32,6 +32,8 @@ type poolCmd struct {
 	ops    []string
 	expect func(calls map[int]string, reply srv.Value) string // "" = agrees
 	ro     bool                                               // must not change dataset or file
+	gops   []string                                           // the same command for the model of the global tables
+	probe  string                                             // "read": the reply lists what the script sees of other borrowers' globals; "assign": it must be refused
 }
 
 type poolGen struct {
@@ -141,6 +143,82 @@ func (g *poolGen) other() poolCmd {
 		ops: []string{fmt.Sprintf("g.%d.e.eval", u), fmt.Sprintf("s.%d", u), fmt.Sprintf("x.%d", u)}}
 }
 
+// SCAN pg WHEREEVAL <a filter that fails on the last object>: tolerated ("attempt to index a non-table": the
+// query goes on) or fatal (any other run-time error: the query fails)
+func (g *poolGen) failingScan(tolerated bool) poolCmd {
+	u := g.user()
+	bad := "no_such_function()"
+	if tolerated {
+		bad = "FIELDS.nofield.x"
+	}
+	filter := "if ID == 'c' then return " + bad + " end return true"
+	desc := "SCAN pg with a WHEREEVAL filter that raises a run-time error on the last object"
+	if tolerated {
+		desc = "SCAN pg with a WHEREEVAL filter that indexes a non-table on the last object (tolerated)"
+	}
+	return poolCmd{words: []string{"SCAN", "pg", "WHEREEVAL", filter, "0", "COUNT"}, desc: desc, ro: true,
+		ops: []string{fmt.Sprintf("g.%d.f.scan", u), fmt.Sprintf("x.%d", u)},
+		gops: []string{fmt.Sprintf("b.%d.1", u), fmt.Sprintf("i.%d.Server.parseSearchScanBaseTokens.0", u),
+			fmt.Sprintf("i.%d.whereevalT.match.0", u), fmt.Sprintf("i.%d.whereevalT.match.0", u), fmt.Sprintf("i.%d.whereevalT.match.1", u), fmt.Sprintf("r.%d", u)}}
+}
+
+const probeRead = "return tostring(ID) .. '|' .. tostring(FIELDS) .. '|' .. tostring(PROPERTIES) .. '|' .. tostring(KEYS[1]) .. '|' .. tostring(ARGV[1])"
+
+// a script that looks for what other borrowers of its interpreter left behind / tries to keep something there
+func (g *poolGen) probe(variant string, kind string) poolCmd {
+	u := g.user()
+	mode := strings.ToLower(variant)
+	script := probeRead
+	if kind == "assign" {
+		script = []string{"ID = 'kept'", "FIELDS = 'kept'", "PROPERTIES = 'kept'"}[g.rng.Intn(3)] + " return 1"
+	}
+	return poolCmd{words: []string{variant, script, "0"}, desc: variant + " <probe: " + kind + " ID/FIELDS/PROPERTIES/KEYS/ARGV>", ro: strings.HasPrefix(mode, "evalro"), probe: kind,
+		ops:  []string{fmt.Sprintf("g.%d.e.%s", u, mode), fmt.Sprintf("s.%d", u), fmt.Sprintf("x.%d", u)},
+		gops: []string{fmt.Sprintf("b.%d.0", u), fmt.Sprintf("i.%d.Server.cmdEvalUnified.0", u), fmt.Sprintf("r.%d", u)}}
+}
+
+// an EVAL with keys and arguments of its own (they must be gone for the next borrower)
+func (g *poolGen) evalWithKeys() poolCmd {
+	u := g.user()
+	return poolCmd{words: []string{"EVAL", "return KEYS[1] .. ARGV[1]", "1", "secretkey", "secretarg"}, desc: "EVAL with a key and an argument",
+		ops:  []string{fmt.Sprintf("g.%d.e.eval", u), fmt.Sprintf("s.%d", u), fmt.Sprintf("x.%d", u)},
+		gops: []string{fmt.Sprintf("b.%d.0", u), fmt.Sprintf("i.%d.Server.cmdEvalUnified.0", u), fmt.Sprintf("r.%d", u)}}
+}
+
+// the borrow / invoke / return operations of a command given its pool operations
+func globalsOpsOf(ops []string) []string {
+	var out []string
+	for _, o := range ops {
+		p := strings.Split(o, ".")
+		switch p[0] {
+		case "g":
+			switch p[2] {
+			case "e":
+				out = append(out, "b."+p[1]+".0")
+			case "f":
+				out = append(out, "b."+p[1]+".1", "i."+p[1]+".Server.parseSearchScanBaseTokens.0")
+			default:
+				out = append(out, "b."+p[1]+".0")
+			}
+		case "s":
+			out = append(out, "i."+p[1]+".Server.cmdEvalUnified.0")
+		case "c":
+			// a filter is invoked once per object; scripts call from inside cmdEvalUnified
+			if isFilter[p[1]] {
+				out = append(out, "i."+p[1]+".whereevalT.match.0")
+			}
+		case "x":
+			out = append(out, "r."+p[1])
+		}
+		if p[0] == "g" {
+			isFilter[p[1]] = p[2] == "f"
+		}
+	}
+	return out
+}
+
+var isFilter = map[string]bool{}
+
 func aofSize(dir string) int64 {
 	st, err := os.Stat(filepath.Join(dir, "appendonly.aof"))
 	if err != nil {
@@ -162,6 +240,9 @@ func runPoolHistory(r *hx.Result, cfg hx.Config, rng *rand.Rand, drv *model.Driv
 	c.MustDo("SET", "pk", "a", "STRING", "x")
 	c.MustDo("SET", "wk", "e", "STRING", "original")
 	c.MustDo("SET", "wk", "f", "STRING", "original")
+	for _, id := range []string{"a", "b", "c"} {
+		c.MustDo("SET", "pg", id, "FIELD", "speed", "7", "POINT", "33", "-115")
+	}
 	g := &poolGen{rng: rng}
 	var hist []poolCmd
 	if hnum == 0 {
@@ -170,21 +251,33 @@ func runPoolHistory(r *hx.Result, cfg hx.Config, rng *rand.Rand, drv *model.Driv
 			hist = append(hist, g.eval("EVAL"), g.scan(2))
 		}
 		hist = append(hist, g.eval("EVAL"), g.nested("EVALRO"), g.nested("EVALROSHA"), g.scan(1), g.eval("EVALNA"), g.scan(2), g.eval("EVALNASHA"), g.nested("EVALRO"), g.scan(1))
+		// a filter that fails on the last object, then scripts that look at / try to keep what it left
+		for _, tol := range []bool{true, false} {
+			hist = append(hist, g.failingScan(tol), g.probe("EVAL", "read"), g.probe("EVALRO", "assign"), g.probe("EVALRO", "read"),
+				g.evalWithKeys(), g.probe("EVALNA", "read"), g.failingScan(tol), g.probe("EVAL", "assign"), g.probe("EVALSHA", "read"))
+		}
 	}
 	for len(hist) < ncmd {
 		x := rng.Intn(100)
 		switch {
 		case x < 30:
 			hist = append(hist, g.eval([]string{"EVAL", "EVALSHA", "EVALRO", "EVALROSHA", "EVALNA", "EVALNASHA"}[rng.Intn(6)]))
-		case x < 55:
+		case x < 45:
 			hist = append(hist, g.scan(1+rng.Intn(2)))
+		case x < 52:
+			hist = append(hist, g.failingScan(rng.Intn(2) == 0))
+		case x < 60:
+			hist = append(hist, g.probe([]string{"EVAL", "EVALSHA", "EVALRO", "EVALROSHA", "EVALNA"}[rng.Intn(5)], []string{"read", "read", "assign"}[rng.Intn(3)]))
+		case x < 63:
+			hist = append(hist, g.evalWithKeys())
 		case x < 80:
 			hist = append(hist, g.nested([]string{"EVAL", "EVALSHA", "EVALRO", "EVALROSHA", "EVALNA", "EVALNASHA"}[rng.Intn(6)]))
 		default:
 			hist = append(hist, g.other())
 		}
 	}
-	var ops []string
+	var ops, gops []string
+	leftBefore := "" // what the model says the pool's interpreters carry beyond the allow-list
 	var trail []string
 	stamped := 0
 	for i, pc := range hist {
@@ -227,6 +320,33 @@ func runPoolHistory(r *hx.Result, cfg hx.Config, rng *rand.Rand, drv *model.Driv
 			}
 		}
 		ops = append(ops, pc.ops...)
+		// the global tables: what the model says the interpreters in the pool carry after this command
+		if pc.gops == nil {
+			pc.gops = globalsOpsOf(pc.ops)
+		}
+		gops = append(gops, pc.gops...)
+		grep := strings.TrimSpace(strings.SplitN(drv.Ask(append([]string{"globals", "5"}, gops...)...), "|", 2)[0])
+		switch pc.probe {
+		case "read":
+			seen := []string{}
+			parts := strings.Split(reply.Str, "|")
+			for k, name := range []string{"ID", "FIELDS", "PROPERTIES", "KEYS[1]", "ARGV[1]"} {
+				if reply.Kind != '$' || k >= len(parts) || parts[k] != "nil" {
+					seen = append(seen, name)
+				}
+			}
+			if len(seen) > 0 {
+				r.Fail(hx.Failure{Kind: "oracle", Signature: "globals-survive-in-pooled-interpreter", What: fmt.Sprintf("pool history %d command %d: a %s script sees %v of an earlier borrower of its interpreter (reply %s)", hnum, i, words[0], seen, reply.String()), Case: map[string]interface{}{"last_commands": trail}})
+			}
+			if (len(seen) > 0) != (leftBefore != "") {
+				r.Fail(hx.Failure{Kind: "correspondence", Signature: "globals-model", What: fmt.Sprintf("pool history %d command %d: the model says the pooled interpreters carry [%s] beyond the allow-list, the probe sees %v", hnum, i, leftBefore, seen), Case: map[string]interface{}{"last_commands": trail}})
+			}
+		case "assign":
+			if reply.Kind != '-' {
+				r.Fail(hx.Failure{Kind: "oracle", Signature: "sandbox-assign-existing-global", What: fmt.Sprintf("pool history %d command %d: %s %q was accepted (%s): a global outside the allow-list exists in the pooled interpreter and can be written", hnum, i, words[0], pc.words[1], reply.String()), Case: map[string]interface{}{"last_commands": trail}})
+			}
+		}
+		leftBefore = grep
 		if pc.expect != nil {
 			rep := drv.Ask(append([]string{"pool", "5"}, ops...)...)
 			calls := map[int]string{}
